@@ -12,7 +12,8 @@ EXTENDS Naturals, Sequences, FiniteSets, TLC
 
 CONSTANT BugStopAtFirst,     \* wrong design: --more prints only the first reply
          BugExitZeroOnError, \* wrong design: an error reply still exits 0
-         BugSplitFirstSlash  \* wrong design: address/method split at the first slash
+         BugSplitFirstSlash, \* wrong design: address/method split at the first slash
+         BugBufferUntilEnd   \* wrong design: standard output is written when the call is over, not when a reply arrives
 
 (* A service behaviour for one call: replies it sends (in order), then optionally closes the connection. *)
 (* reply: [cont, err \in {"", "std", "custom"}, par \in BOOLEAN (parameters present)]                    *)
@@ -60,6 +61,15 @@ CmdObserve(cmd, form, known) ==
                                      ELSE [exit |-> 1, out |-> "nothing", err |-> "InterfaceNotFound"]
 \* a command prints something on stdout exactly when it succeeds
 OutIffSuccess(cmd, form, known) == LET o == CmdObserve(cmd, form, known) IN (o.exit = 0) <=> (o.out # "nothing")
+
+(* A stream that is still open (monitor-style methods): what is on standard output once the k-th reply has arrived. *)
+(* Output is a function of what has arrived: every reply is printed when it arrives, not when the call is over.     *)
+RECURSIVE UpTo(_, _)
+UpTo(seq, k) == IF seq = <<>> THEN <<>> ELSE IF Head(seq) <= k THEN <<Head(seq)>> \o UpTo(Tail(seq), k) ELSE <<>>
+Shown(script, more, k) ==
+  IF BugBufferUntilEnd /\ k < Len(script) THEN <<>> ELSE UpTo(Observe(script, more).out, k)
+ShownAsArrived(script, more) ==
+  \A k \in 0..Len(script) : Shown(script, more, k) = Observe(SubSeq(script, 1, k), more).out
 
 ExitZeroIffAllGood(script, more) ==
   LET o == Observe(script, more) IN
